@@ -399,24 +399,29 @@ def tracer_cases(ctx, rng):
         (SpecializedRayTracer, lambda fp, tp, ice: SpecializedRayTracer(fp, tp, ice_model=ice),
          ["n0", "rho", "max_angle", "z_uniform", "direct_r_max", "exists", "expected_solutions", "solutions"],
          [AntarcticIce(), AntarcticIce(n0=1.76, k=1.76 - 1.32, a=0.014)]),
+        (BasicRayTracer, lambda fp, tp, ice: BasicRayTracer(fp, tp, ice_model=ice),
+         ["n0", "rho", "max_angle", "direct_r_max"],
+         [AntarcticIce(), AntarcticIce(n0=1.76, k=1.76 - 1.32, a=0.014)]),
         (UniformRayTracer, lambda fp, tp, ice: UniformRayTracer(fp, tp, ice_model=ice),
          ["n0", "rho", "phi", "exists", "solutions"],
          [UniformIce(1.5), UniformIce(1.78)]),
     ]
     for cls, make, names, ices in specs:
-        for trial in range(ctx.n(3, 25) if cls is SpecializedRayTracer else ctx.n(8, 60)):
+        for trial in range(ctx.n(3, 25) if cls is SpecializedRayTracer else (ctx.n(2, 10) if cls is BasicRayTracer else ctx.n(8, 60))):
             pts = lambda: np.array([rng.randint(-300, 300), rng.randint(-300, 300), -rng.randint(20, 900)], dtype=float)
             state = {"from_point": pts(), "to_point": pts(), "ice": ices[0]}
             rt = make(state["from_point"], state["to_point"], state["ice"])
             hist = []
             for stepn in range(rng.randint(2, 5)):
-                quantities(rt, rng.sample(names, rng.randint(1, len(names))))     # reads (fill the cache)
-                a = rng.choice(["from_point", "to_point", "ice", "dz"] if cls is SpecializedRayTracer else ["from_point", "to_point", "ice"])
+                # reads (fill the cache): a random subset, or everything for the slow numerical tracer
+                quantities(rt, names if cls is BasicRayTracer else rng.sample(names, rng.randint(1, len(names))))
+                a = rng.choice(["from_point", "to_point", "ice", "dz"] if cls is SpecializedRayTracer else
+                               (["dz", "dz", "to_point", "ice"] if cls is BasicRayTracer else ["from_point", "to_point", "ice"]))
                 if a == "ice":
                     state["ice"] = ices[1] if state["ice"] is ices[0] else ices[0]
                     rt.ice = state["ice"]
                 elif a == "dz":
-                    rt.dz = rng.choice([0.5, 1, 2])
+                    rt.dz = rng.choice([d for d in (0.5, 1, 2) if d != rt.dz])
                     state["dz"] = rt.dz
                 else:
                     state[a] = pts()
@@ -513,6 +518,8 @@ def run(ctx):
             ctx.case(key=tuple(hist), nontrivial=True)
             if common.norm_coq(v) != want:
                 bad += 1
+                if len(ctx.failures) >= 6:
+                    continue
                 ctx.fail("core:" + ";".join(hist)[:120], "LazyMutableClass behaves differently from Model/LazyModel.v on a synthetic class: "
                          "history %s implementation stale-pattern %s model %s" % (hist, pattern, v),
                          {"kind": "core", "table": tab, "history": hist, "implementation": pattern, "model": v}, witness=True)
@@ -540,6 +547,8 @@ def run(ctx):
             bad = h.check()
             if bad:
                 stale += 1
+                if len(ctx.failures) >= 6:
+                    break
                 ctx.fail("fun:" + ",".join(o[0] for o in h.log[-4:]), "FunctionSignal after %s: %s" % (h.log[-6:], bad),
                          {"kind": "fun", "seed": seed, "ops": h.log}, witness=True)
                 break
